@@ -2,10 +2,15 @@
    PARTIAL BY DESIGN.  Proved here, about the Gallina models NV.Base.Decimal, NV.Sam.Fields and
    NV.Sam.Record (mirrors of noodles-sam io/writer/record.rs etc., io/writer/num.rs, io/reader/record_buf.rs etc.):
    the record half of the property (one alignment line, all 11 columns and all optional-field types),
-   with float text as a Section oracle.  NOT modelled in Coq: header lines (@HD/@SQ/@RG/@PG/@CO) and
-   the SAM/BAM agreement -- those are evaluated on the implementation only (harness kinds rt/hdr). *)
+   with float text as a Section oracle; the header half (NV.Sam.Header: @HD/@SQ/@RG/@PG/@CO lines with
+   ordered tag maps, sam::io::Reader::read_header line handling and the duplicate-tag context);
+   and the SAM/BAM agreement for records without optional fields, by composition with the C05
+   BAM codec theorem.  NOT modelled: the BAM header block, optional fields on the BAM side, the lazy
+   sam::Record -- those are evaluated on the implementation only (harness kinds rt/hdr/lz). *)
 From Coq Require Import List NArith ZArith Bool Lia.
 From NV Require Import Base.Decimal Base.DecimalProofs Sam.Fields Sam.FieldsProofs Sam.Record Sam.RecordProofs.
+From NV Require Import Sam.Header Sam.HeaderProofs Sam.BamAgree.
+From NV Require Bam.Record Bam.Encode Bam.Decode Bam.CodecProofs.
 Import ListNotations.
 Open Scope N_scope.
 
@@ -139,6 +144,55 @@ Theorem c06_fixed_point :
       write_record fmt32 fmtd32 refs r' = Some t.
 Proof. exact fixed_point. Qed.
 Print Assumptions c06_fixed_point.
+
+(* ---- headers *)
+(* wf_header = what the Rust types guarantee and the writer does not check: tags of the "other"
+   maps are unique and are not the kind's standard tags (IndexMap<Other<S>, _>), @SQ names /
+   @RG ids / @PG ids are unique (IndexMap keys), LN >= 1 (NonZero), version components fit u32,
+   and comments contain no LF and do not end in CR (the writer emits @CO text unvalidated).
+   Everything else (tag and value alphabets, reference-name grammar, LN <= 2^31-1) is checked by
+   write_header itself. *)
+Theorem c06_header_roundtrip_partial :
+  forall h t, wf_header h -> write_header h = Some t -> read_header t = Some h.
+Proof. exact header_roundtrip. Qed.
+Print Assumptions c06_header_roundtrip_partial.
+
+Theorem c06_header_fixed_point :
+  forall h t h', wf_header h -> write_header h = Some t -> read_header t = Some h' ->
+    write_header h' = Some t.
+Proof. exact header_fixed_point. Qed.
+Print Assumptions c06_header_fixed_point.
+
+Example c06_header_example :
+  let h := mkHeader (Some (mkHd 1 6 [((83,79), [117;110;107])]))
+                    [mkSq [99;104;114;49] 2147483647 [((77,53), [97;98])]; mkSq [50] 1 []]
+                    [mkId [114;103;32;49] [((83,77), [115])]] [mkId [112] []; mkId [113] [((80,80), [112])]]
+                    [[104;105;9;120]; []] in
+  wf_header h /\ exists t, write_header h = Some t /\ read_header t = Some h.
+Proof.
+  cbn zeta. split.
+  - unfold wf_header, wf_hd, wf_sq, wf_id, others_ok, co_ok. cbn.
+    repeat split; repeat constructor; cbn; try lia; try (intuition discriminate); try discriminate.
+  - eexists. split; vm_compute; reflexivity.
+Qed.
+
+(* ---- SAM vs BAM, records without optional fields (scope of C05's codec theorem) *)
+Theorem c06_sam_bam_agree_partial :
+  forall (fmt32 fmtd32 : N -> bytes) (parse32 : bytes -> option N) (parse32p : bytes -> option (N * bytes)),
+    (forall b, finite32 b = true -> parse32 (fmt32 b) = Some b) ->
+    (forall b, PR (fmt32 b)) ->
+    (forall b rest, finite32 b = true -> (rest = [] \/ exists r, rest = 44 :: r) ->
+                    parse32p (fmtd32 b ++ rest) = Some (b, rest)) ->
+    (forall b, PR (fmtd32 b)) ->
+    forall refs nref r t block,
+      wf_refs refs -> wf_rec r -> r_data r = [] -> r_qual r <> [9] ->
+      Bam.Record.lenN (r_cigar r) <= 65535 ->
+      write_record fmt32 fmtd32 refs r = Some t ->
+      Bam.Encode.encode nref (to_bam r) = Bam.Record.Ok block ->
+      exists rs, parse_line parse32 parse32p refs t = POk rs
+                 /\ Bam.Decode.decode block = Bam.Record.Ok (Bam.CodecProofs.norm (to_bam rs)).
+Proof. exact sam_bam_agree. Qed.
+Print Assumptions c06_sam_bam_agree_partial.
 
 (* ---- the complete property, kept visible; header and BAM parts are NOT proved (L3 only) *)
 Section FullStatement.
